@@ -1,5 +1,9 @@
 ID = 'C04'
 CUTS = [r'^_ZNSt7__cxx119to_stringEl$']
+SERIALIZE = '_ZNK5phosg4JSON9serializeB5cxx11Ejm'
+# std::variant<...>::_M_reset visitor = the recursive part of ~JSON
+RESET = '_ZSt10__do_visitIvZNSt8__detail9__variant16_Variant_storageILb0EJDnbldNSt7__cxx1112basic_stringIcSt11char_traitsIcESaIcEEESt6vectorISt10unique_ptrIN5phosg4JSONESt14default_deleteISC_EESaISF_EESt13unordered_mapIS8_SF_vvvEEE8_M_resetEvEUlOT_E_JRSt7variantIJDnbldS8_SH_SJ_EEEEDcOT0_DpOT1_'
+SCALAR_REC = '%s:1,%s:1' % (SERIALIZE, RESET)  # scalars: serialize() and ~JSON never recurse (asserted by the unwinding assertions)
 UNITS = {'ser': dict(wrap='wrap.cc', shim=True, new_block=96, cxxflags=['-DVERIF_UMAP_CAP=2'], cuts=CUTS, ir2c_flags=['--union-fp-bytes'])}
 BOUNDS = ''
 STUBS = []
@@ -16,19 +20,19 @@ def queries(tier):
     shapes = [(1, 0, 0), (1, 1, 0), (2, 0, 0), (1, 0, 1), (1, 1, 1)] if tier == 'quick' else \
              [(i, f, 0) for i in (1, 2, 3, 6) for f in (0, 1, 2, 5)] + [(1, f, 1) for f in (0, 1, 2, 5)]
     for (i, f, e) in shapes:
-        qs.append(dict(name='float_i%d_f%d_e%d' % (i, f, e), unit='ser', harness='h_float.c', defs={'IDIG': i, 'FDIG': f, 'EXPO': e}, unwind=i + f + 12,
+        qs.append(dict(name='float_i%d_f%d_e%d' % (i, f, e), unit='ser', harness='h_float.c', defs={'IDIG': i, 'FDIG': f, 'EXPO': e}, unwind=i + f + 12, unwindset=SCALAR_REC,
                        timeout=600, mem_gb=4, desc='serialize(double) text rule with %%g as a contract stub: %d integer digits, %d fraction digits, exponent part %s; all 64 option sets' % (i, f, 'present' if e else 'absent'),
                        bounds='%%g text shape: %d int digits, %d fraction digits, exponent %d (2-3 exponent digits)' % (i, f, e)))
-    qs.append(dict(name='scalar_trivial', unit='ser', harness='h_scalar.c', defs={'KIND': 0}, unwind=10, timeout=600, mem_gb=4,
+    qs.append(dict(name='scalar_trivial', unit='ser', harness='h_scalar.c', defs={'KIND': 0}, unwind=10, unwindset=SCALAR_REC, timeout=600, mem_gb=4,
                    desc='serialize(null/false/true) x 64 option sets: exact text', bounds='all 3 values x 64 option sets'))
-    qs.append(dict(name='scalar_hexint', unit='ser', harness='h_scalar.c', defs={'KIND': 2}, unwind=22, timeout=900, mem_gb=6,
+    qs.append(dict(name='scalar_hexint', unit='ser', harness='h_scalar.c', defs={'KIND': 2}, unwind=22, unwindset=SCALAR_REC, timeout=900, mem_gb=6,
                    desc='serialize(int64) with HEX_INTEGERS: exact text for every int64 (incl. INT64_MIN/MAX) x 32 option sets', bounds='all 2^64 values'))
     for nd in ([1, 2, 19] if tier == 'quick' else [1, 2, 3, 5, 10, 15, 16, 18, 19]):
-        qs.append(dict(name='scalar_decint_%ddig' % nd, unit='ser', harness='h_scalar.c', defs={'KIND': 3, 'NDIG': nd}, unwind=nd + 12, timeout=900, mem_gb=6,
+        qs.append(dict(name='scalar_decint_%ddig' % nd, unit='ser', harness='h_scalar.c', defs={'KIND': 3, 'NDIG': nd}, unwind=nd + 12, unwindset=SCALAR_REC, timeout=900, mem_gb=6,
                        desc='serialize(int64) without HEX_INTEGERS returns exactly std::to_string(value) (%d-digit values, both signs) x 32 option sets' % nd,
                        bounds='%d decimal digits' % nd))
     for L in ([0, 1] if tier == 'quick' else [0, 1, 2, 3]):
-        qs.append(dict(name='scalar_string_len%d' % L, unit='ser', harness='h_scalar.c', defs={'KIND': 4, 'LEN': L}, unwind=6 * L + 20, timeout=900, mem_gb=6,
+        qs.append(dict(name='scalar_string_len%d' % L, unit='ser', harness='h_scalar.c', defs={'KIND': 4, 'LEN': L}, unwind=6 * L + 20, unwindset=SCALAR_REC, timeout=900, mem_gb=6,
                        desc='serialize(string of %d symbolic bytes) x 64 option sets: quotes + body that un-escapes to the input, alphabet of the selected mode' % L,
                        bounds='string length == %d, all byte values' % L))
     return qs
